@@ -112,6 +112,8 @@ def ipow(a, k):
 def _iroot(m, k):
     if m < 0:
         return None
+    if k > 200:                      # c ** k for a huge k would build an astronomically large integer
+        return m if m in (0, 1) else None
     r = round(m ** (1.0 / k)) if m < 10**300 else None
     if r is None:
         return None
@@ -284,9 +286,18 @@ def partial(e, v, p, which=1):
         r = dv(e, v, p, cx)
     except Undef:
         return ("undef",)
-    except (IllCond, OverflowError, ZeroDivisionError, ValueError):
-        return ("illcond",)
+    except IllCond as exc:
+        return ("illcond", str(exc))
+    except (OverflowError, ZeroDivisionError, ValueError):
+        return ("illcond", "overflow")
     return ("ok", r[which], cx.maxmag)
+
+
+def out_of_range(e, p):
+    """True when exact intermediates of e at p leave the floating-point range (the properties exclude such cases).
+    Used to PRE-SCREEN cases: Python would try to build astronomically large integers for some of them (30 GB observed)."""
+    r = value(e, p)
+    return r[0] == "illcond" and len(r) > 1 and r[1] in ("overflow", "huge")
 
 
 def sv_record(res):
